@@ -188,17 +188,19 @@ fn run<T: Scalar>(c: &Case, xs: &[f64], a: f64, b: f64, mode: Mode, out: &mut Tr
             continue;
         }
         // views on WelfordOnline's running m2: a window whose exact variance lies inside the rounding
-        // residue of that accumulator (about eps x level x spread of the history per update; known
-        // findings of C07 / C16) may be taken for flat, and the flat-window convention (Vst: the
-        // value itself) is not invariant.  Such steps carry no claim in floating point.
+        // residue of that accumulator (about eps x level x spread of the history per update; the
+        // known findings of C07 / C16) may be taken for flat, and Vst's flat-window convention (the
+        // value itself) is not invariant.  A failure on such a step is reported under its own
+        // predicate (a known finding), any other one under "any".
+        let mut in_residue = false;
         if !T::EXACT && on_welford && w.len() > 1 {
             let var_e = crate::xq::scoped(|| {
                 let wq: Vec<Xq> = w.iter().map(|x| Xq::of(*x)).collect();
                 crate::oracle::window::sample_var(&wq).f()
             });
             if !(var_e > 64.0 * f64::EPSILON * big * (hhi - hlo) * ((t + 1) as f64).sqrt()) {
-                out.count("f64_steps_exempt_window_variance_inside_m2_rounding_residue", 1);
-                continue;
+                out.count("f64_steps_with_window_variance_inside_m2_rounding_residue", 1);
+                in_residue = true;
             }
         }
         let (p, q) = (o1[t], o2[t]);
@@ -244,7 +246,7 @@ fn run<T: Scalar>(c: &Case, xs: &[f64], a: f64, b: f64, mode: Mode, out: &mut Tr
             out.violation(
                 c.name,
                 rel_name(c.rel),
-                "any",
+                if in_residue { "window_variance_inside_running_m2_rounding_residue" } else { "any" },
                 format!(
                     "{} at {} ({:?}): step {}: output on the mapped stream ({}) = {}, expected {} from the output on x = {}\n{}",
                     c.spec.show(),
